@@ -37,7 +37,8 @@ func vxCutOf(sel int, n int) int {
 // the callers), either as soon as possible (eager: a reply may overtake later requests) or only after all k
 // requests are on the wire; each reply is the matching R / an Rerror / an R of another type; each reply may be
 // cut into two segments. ntags <= 0: client built by NewClnt; ntags > 0: literal with a pool of ntags tags.
-func vxH09Rpc(k int, ops int, ntags int, dotu bool, seg bool, gopeer bool) {
+// kindsel < 0: every combination of reply kinds; otherwise caller i gets kind = i-th base-3 digit of kindsel.
+func vxH09Rpc(k int, ops int, kindsel int, ntags int, dotu bool, seg bool, gopeer bool) {
 	nc := vxNewCConn()
 	// ---- all nondeterministic draws first (schedule independent order) ----
 	kinds := make([]int, k)
@@ -45,7 +46,12 @@ func vxH09Rpc(k int, ops int, ntags int, dotu bool, seg bool, gopeer bool) {
 	ecode := make([]uint32, k)
 	cuts := make([]int, k)
 	for i := 0; i < k; i++ {
-		kinds[i] = vxChoose("kind", 3)
+		if kindsel < 0 {
+			kinds[i] = vxChoose("kind", 3)
+		} else {
+			kinds[i] = kindsel % 3
+			kindsel /= 3
+		}
 		etext[i] = vxString("etext", 2)
 		ecode[i] = vxU32("ecode")
 		if seg {
@@ -54,7 +60,7 @@ func vxH09Rpc(k int, ops int, ntags int, dotu bool, seg bool, gopeer bool) {
 	}
 	order := vxPerms[k][vxChoose("order", len(vxPerms[k]))]
 	eager := vxChoose("eager", 2) == 1
-	clnt := vxNewClient(nc, 8192, dotu, ntags)
+	clnt := vxNewClient(nc, 128, dotu, ntags)
 	callers := make([]*vxCaller, k+1)
 	for i := 0; i <= k; i++ {
 		op := vxOpsDigit(ops, i)
@@ -140,5 +146,245 @@ func vxH09Rpc(k int, ops int, ntags int, dotu bool, seg bool, gopeer bool) {
 	last.call(clnt)
 	vxAssert(last.gotMatching(dotu), "follow-up-call-gets-its-own-reply")
 	vxAssert(!peer.dupTag, "outstanding-tags-pairwise-distinct")
+	vxReach("done")
+}
+
+// ---- H09.pool: tag / request-slot conservation and recycling (sequential lemma) ----
+
+// vxTagCensus drains and restores the free-tag pool and the cache of request slots and walks the list of
+// outstanding requests; it returns how often each tag 0..n-1 occurs anywhere, and whether a tag >= n was seen.
+func vxTagCensus(clnt *Clnt, n int) (cnt []int, alien bool) {
+	cnt = make([]int, n)
+	note := func(t uint32) {
+		if int(t) < n {
+			cnt[t]++
+		} else {
+			alien = true
+		}
+	}
+	var ids []uint32
+	for {
+		select {
+		case id := <-clnt.tagpool.id:
+			ids = append(ids, id)
+			continue
+		default:
+		}
+		break
+	}
+	for _, id := range ids {
+		note(id)
+		clnt.tagpool.id <- id
+	}
+	var rs []*Req
+	for {
+		select {
+		case r := <-clnt.reqchan:
+			rs = append(rs, r)
+			continue
+		default:
+		}
+		break
+	}
+	for _, r := range rs {
+		note(uint32(r.tag))
+		clnt.reqchan <- r
+	}
+	for r := clnt.reqfirst; r != nil; r = r.next {
+		note(uint32(r.tag))
+	}
+	return
+}
+
+// H09.pool: a client whose pool has 3 tags, every distribution of the three tags over {free pool, cached request
+// slot, outstanding request} that leaves one tag usable; one complete call conserves the multiset of tags and never
+// uses an outstanding tag; then ncalls further consecutive calls (more calls than tags) all complete.
+func vxH09Pool(ncalls int, dotu bool) {
+	const ntags = 3
+	nc := vxNewCConn()
+	where := make([]int, ntags) // 0 free, 1 cached, 2 outstanding
+	nout := 0
+	for t := range where {
+		where[t] = vxChoose("where", 3)
+		if where[t] == 2 {
+			nout++
+		}
+	}
+	if nout == ntags {
+		// every tag in use: the next call waits for one by design ("Get ... will block until there are some")
+		vxReach("all-tags-outstanding")
+		return
+	}
+	clnt := vxNewClient(nc, 128, dotu, ntags)
+	callers := make([]*vxCaller, ncalls+1)
+	for i := range callers {
+		callers[i] = vxNewCaller(clnt, i, vxOpRead)
+	}
+	// establish the distribution: take all tags out of the fresh pool and put each where it belongs
+	for t := 0; t < ntags; t++ {
+		<-clnt.tagpool.id
+	}
+	for t := 0; t < ntags; t++ {
+		switch where[t] {
+		case 0:
+			clnt.tagpool.id <- uint32(t)
+		case 1:
+			clnt.reqchan <- &Req{Clnt: clnt, tag: uint16(t)}
+		case 2:
+			// an outstanding call of somebody else that the server has not answered (and will not answer here)
+			tc := NewFcall(128)
+			PackTclunk(tc, 900+uint32(t))
+			SetTag(tc, uint16(t))
+			r := &Req{Clnt: clnt, tag: uint16(t), Tc: tc, Done: make(chan *Req, 1)}
+			if clnt.reqlast != nil {
+				clnt.reqlast.next = r
+			} else {
+				clnt.reqfirst = r
+			}
+			r.prev = clnt.reqlast
+			clnt.reqlast = r
+		}
+	}
+	usedOutstanding := false
+	peer := vxNewPeer(nc, dotu, func(p *vxPeer, r *vxPReq) {
+		for t := 0; t < ntags; t++ {
+			if where[t] == 2 && r.f.tag == uint16(t) {
+				usedOutstanding = true
+			}
+		}
+		p.send(r, p.matchingReply(r), 0)
+	})
+	check := func(stage string) {
+		cnt, alien := vxTagCensus(clnt, ntags)
+		vxAssert(!alien, "no-tag-outside-the-pool-range")
+		for t := 0; t < ntags; t++ {
+			vxAssert(cnt[t] == 1, "each-tag-is-in-exactly-one-place-"+stage)
+		}
+		n := 0
+		for r := clnt.reqfirst; r != nil; r = r.next {
+			n++
+			vxAssert(int(r.tag) < ntags && where[r.tag] == 2, "outstanding-list-holds-only-the-unanswered-requests-"+stage)
+		}
+		vxAssert(n == nout, "outstanding-list-holds-only-the-unanswered-requests-"+stage)
+	}
+	check("before")
+	for i := 0; i <= ncalls; i++ {
+		c := callers[i]
+		c.call(clnt)
+		vxAssert(c.gotMatching(dotu), "call-returns-its-own-reply")
+		if i == 0 {
+			vxQuiesce()
+			check("after-one-call")
+		}
+	}
+	vxQuiesce()
+	check("after-all-calls")
+	vxAssert(!usedOutstanding, "a-new-call-never-uses-an-outstanding-tag")
+	vxAssert(!peer.dupTag, "outstanding-tags-pairwise-distinct")
+	vxAssert(len(peer.reqs) == ncalls+1, "one-request-per-call")
+	vxReach("done")
+}
+
+// ---- H09.tag: the pipelined Tag interface ----
+
+// n requests are issued back to back under one Tag (so they share a tag on the wire); the peer answers them in
+// the order it received them (it has no other way: they carry the same tag), eagerly or after all n arrived,
+// each with the matching Rread or an Rerror. They must come out of the user's channel in issue order, each with
+// the reply to its own request. One ordinary call may run concurrently (other = true).
+func vxH09Tag(n int, chancap int, other bool, dotu bool) {
+	nc := vxNewCConn()
+	kinds := make([]int, n)
+	for i := range kinds {
+		kinds[i] = vxChoose("kind", 2)
+	}
+	eager := vxChoose("eager", 2) == 1
+	clnt := vxNewClient(nc, 128, dotu, 3)
+	offs := make([]uint64, n)
+	for i := range offs {
+		offs[i] = vxU64("offset")
+	}
+	oc := vxNewCaller(clnt, n, vxOpRead)
+	nshared := 0
+	sent := 0
+	var pend []*vxPReq
+	peer := vxNewPeer(nc, dotu, func(p *vxPeer, r *vxPReq) {
+		if r.fidOf() == vxFidNo(n) {
+			p.send(r, p.matchingReply(r), 0)
+			return
+		}
+		nshared++
+		pend = append(pend, r)
+		if !eager && nshared < n {
+			return
+		}
+		for _, q := range pend {
+			if kinds[sent] == vxKindMatch {
+				p.send(q, p.matchingReply(q), 0)
+			} else {
+				p.send(q, p.errorReply(q, "no", 5), 0)
+			}
+			sent++
+		}
+		pend = nil
+	})
+	user := make(chan *Req, chancap)
+	tag := clnt.TagAlloc(user)
+	fid := &Fid{Clnt: clnt, Fid: 7, Iounit: 8, walked: true}
+	if other {
+		go oc.call(clnt)
+	}
+	got := make([]*Req, 0, n)
+	if chancap >= n {
+		for i := 0; i < n; i++ {
+			vxAssert(tag.Read(fid, offs[i], 2) == nil, "pipelined-request-accepted")
+		}
+		for i := 0; i < n; i++ {
+			got = append(got, <-user)
+		}
+	} else {
+		// a user channel too small to hold every completion: a consumer goroutine drains it
+		fin := make(chan bool)
+		go func() {
+			for i := 0; i < n; i++ {
+				got = append(got, <-user)
+			}
+			fin <- true
+		}()
+		for i := 0; i < n; i++ {
+			vxAssert(tag.Read(fid, offs[i], 2) == nil, "pipelined-request-accepted")
+		}
+		<-fin
+	}
+	if other {
+		if !vxAwaitCallers([]*vxCaller{oc}) {
+			return
+		}
+		vxAssert(oc.gotMatching(dotu), "ordinary-call-beside-a-tag-gets-its-own-reply")
+	}
+	vxQuiesce()
+	for i, r := range got {
+		vxAssert(r != nil && r.Tc != nil && r.Rc != nil, "completion-carries-request-and-reply")
+		if r == nil || r.Tc == nil || r.Rc == nil {
+			return
+		}
+		vxAssert(vxAll(r.Tc.Type == Tread, r.Tc.Offset == offs[i]), "completions-arrive-in-issue-order")
+		if kinds[i] == vxKindMatch {
+			vxAssert(r.Rc.Type == Rread && refBytesEq(r.Rc.Data, []byte{byte(offs[i]), byte(offs[i] >> 8)}), "completion-carries-the-reply-to-its-own-request")
+		} else {
+			vxAssert(vxAll(r.Rc.Type == Rerror, r.Rc.Error == "no"), "completion-carries-the-reply-to-its-own-request")
+		}
+	}
+	// wire: n requests with the Tag's tag, distinct from the ordinary call's tag
+	for _, q := range peer.reqs {
+		if q.fidOf() == 7 {
+			vxAssert(q.f.tag == tag.tag, "pipelined-requests-carry-the-tags-tag")
+		} else {
+			vxAssert(q.f.tag != tag.tag, "ordinary-call-does-not-share-the-tags-tag")
+		}
+	}
+	clnt.TagFree(tag)
+	vxQuiesce()
+	cnt, alien := vxTagCensus(clnt, 3)
+	vxAssert(!alien && cnt[0] <= 1 && cnt[1] <= 1 && cnt[2] <= 1 && cnt[0]+cnt[1]+cnt[2] == 3, "tags-conserved-after-tagfree")
 	vxReach("done")
 }
